@@ -23,6 +23,7 @@ import (
 	"strconv"
 	"strings"
 	"sync"
+	"sync/atomic"
 	"testing"
 	"time"
 
@@ -618,7 +619,7 @@ type vClient struct {
 	mu     sync.Mutex
 	rid    int
 	authed bool // the client saw 233 on this connection
-	closed bool
+	closed atomic.Bool // (read by other connections' goroutines: open steps)
 	sess   uint32
 	dmu    sync.Mutex
 	dgot   map[string]int
@@ -630,16 +631,32 @@ func vDial(e *vEnv, c int) (*vClient, error) {
 	if err != nil {
 		return nil, err
 	}
+	return vDialOn(e, c, pc, &quic.Transport{Conn: pc}, "")
+}
+
+// vDialFrom opens connection c from the SAME local socket (same remote address as the server sees it) as the
+// connection old, which the history has closed before: a new QUIC connection of a peer whose previous connection
+// has ended.  From here on the address names connection c (the old connection has no boundary call left: doClose
+// has waited for its Disconnect, and every request / stream of it had been answered before it was closed).
+func vDialFrom(e *vEnv, c int, old *vClient) (*vClient, error) {
+	return vDialOn(e, c, old.pc, old.tr, "same-socket-as-c"+strconv.Itoa(old.c))
+}
+
+// vDialOn logs `open` for c (the accept of a NEW connection: nothing of c is logged before it), registers the
+// address and performs the handshake.
+func vDialOn(e *vEnv, c int, pc net.PacketConn, tr *quic.Transport, how string) (*vClient, error) {
+	e.add(vEntry{C: c, K: "open", Res: how})
 	e.mu.Lock()
 	e.addrs[pc.LocalAddr().String()] = c
 	e.mu.Unlock()
-	tr := &quic.Transport{Conn: pc}
 	ctx, cancel := context.WithTimeout(context.Background(), 20*time.Second)
 	defer cancel()
 	qc, err := tr.Dial(ctx, e.srvAddr, &tls.Config{InsecureSkipVerify: true, NextProtos: []string{http3.NextProtoH3}},
 		&quic.Config{EnableDatagrams: true, MaxIdleTimeout: 40 * time.Second})
 	if err != nil {
-		_ = pc.Close()
+		if how == "" {
+			_ = pc.Close()
+		}
 		return nil, err
 	}
 	cl := &vClient{e: e, c: c, pc: pc, tr: tr, qc: qc, dgot: map[string]int{}}
@@ -669,7 +686,7 @@ func (cl *vClient) recvDatagrams() {
 }
 
 func (cl *vClient) shutdown() {
-	if !cl.closed {
+	if !cl.closed.Load() {
 		_ = cl.qc.CloseWithError(0x100, "")
 	}
 	_ = cl.tr.Close()
@@ -813,7 +830,7 @@ func (cl *vClient) doDgram(addr string) {
 
 func (cl *vClient) doClose() {
 	cl.e.add(vEntry{C: cl.c, K: "close"})
-	cl.closed = true
+	cl.closed.Store(true)
 	_ = cl.qc.CloseWithError(0x100, "")
 	if cl.authed {
 		c := cl.c
